@@ -81,6 +81,9 @@ func (rn *Runner) ResetEvent(extra tl.M) {
 	rn.Tr.Emit(ev)
 }
 
+// PersistentID reads the persistent state id from the key-value store.
+func (rn *Runner) PersistentID() int { return int(rawdb.ReadPersistentStateID(rn.E.KV.Database)) }
+
 // ChainRoots returns the roots from the disk layer (index 0) up to the head.
 func (rn *Runner) ChainRoots() []common.Hash {
 	roots, _, ok := rn.E.PDB.VerifHistChain(rn.Head)
